@@ -211,7 +211,7 @@ Proof.
   intros ND Hok. unfold blocks_ok in Hok. rewrite forallb_forall in Hok.
   assert (Hper : forall b es, In (b, es) bl -> uniq es /\ (forall e, In e es -> blockOf bs (e_pos e) = b /\ NoDup (e_tags e))).
   { intros b es Hb. specialize (Hok (b, es) Hb). cbn [fst snd] in Hok. apply andb_true_iff in Hok as [H1 H2].
-    destruct (elems_ok_true es H1) as [U [Ht _]]. rewrite forallb_forall in H2. split; [exact U|].
+    destruct (elems_ok_true es H1) as [U Ht]. rewrite forallb_forall in H2. split; [exact U|].
     intros e He. split; [apply pos_eqb_eq; now apply H2 | now apply Ht]. }
   split; [exact ND|]. split.
   - clear Hok. induction bl as [|[k v] bl IH]; cbn [flat_map snd]; [constructor|].
